@@ -467,6 +467,7 @@ func main() {
 	}
 	if *replay == "" {
 		runReelections(R, *seed, 8)
+		runLifecycles(R, *seed, 24)
 	}
 	if err := cf.Flush(); err != nil {
 		panic(err)
